@@ -28,11 +28,12 @@ func (timeoutErr) Temporary() bool { return true }
 
 // faultConn delivers data in segments and returns one timeout error when pos reaches failAt.
 type faultConn struct {
-	data   []byte
-	pos    int
-	failAt int
-	failed bool
-	seg    int
+	data        []byte
+	pos         int
+	failAt      int
+	failed      bool
+	seg         int
+	eofTogether bool // the Read that delivers the last bytes also reports io.EOF (allowed by io.Reader)
 }
 
 func (c *faultConn) Read(p []byte) (int, error) {
@@ -55,6 +56,9 @@ func (c *faultConn) Read(p []byte) (int, error) {
 	}
 	copy(p, c.data[c.pos:c.pos+n])
 	c.pos += n
+	if c.eofTogether && c.pos >= len(c.data) && n > 0 {
+		return n, io.EOF
+	}
 	return n, nil
 }
 func (c *faultConn) Write(p []byte) (int, error)      { return len(p), nil }
@@ -72,6 +76,80 @@ func extraWorkloads(r *mon.Run, rec *recorder) {
 	otherPacketTypes(r, rec)
 	reconnects(r, rec)
 	factoryTransports(r, rec)
+	slicesOfLargerBuffers(r, rec)
+	lastBytesWithEOF(r, rec)
+}
+
+// slicesOfLargerBuffers: the payload is a window of a much larger buffer (len << cap), as with a
+// reused I/O buffer: what counts is its length.
+func slicesOfLargerBuffers(r *mon.Run, rec *recorder) {
+	backing := make([]byte, 1<<19)
+	for i := range backing {
+		backing[i] = byte(i*13 + i>>9)
+	}
+	for i, n := range []int{0, 1, 5, 300, 0xFFFF, 0x10000, 0x1FFFF} {
+		for _, off := range []int{0, 1, 4097} {
+			p := backing[off : off+n] // capacity: the rest of the 512 KiB buffer
+			a, b := net.Pipe()
+			t := nbt.NewNBTTransportFromConn(a)
+			got := make(chan []byte, 1)
+			go func() { x, _ := io.ReadAll(b); got <- x }()
+			var err error
+			pan, pv, st := mon.Guard(func() { _, err = t.Send(p) })
+			a.Close()
+			wire := <-got
+			rec.Eval(1)
+			want, _ := refEncode(p)
+			cs := map[string]any{"payload_len": n, "payload_cap": cap(p)}
+			switch {
+			case pan:
+				rec.Violation(i, "Send:panic", sprintf("panic %v at %s", pv, mon.TopLibFrame(st)), cs)
+			case err != nil:
+				rec.Violation(i, "Send:error-on-valid:window-of-larger-buffer", sprintf("Send of a %d-octet payload that is a window of a %d-octet buffer returned %v", n, cap(p), err), cs)
+			case !bytes.Equal(wire, want):
+				rec.Violation(i, "Send:wire:window-of-larger-buffer", sprintf("a %d-octet payload (capacity %d) left the transport as %d octets, first difference at %d", n, cap(p), len(wire), firstDiff(wire, want)), cs)
+			}
+			rec.Nontrivial(sprintf("window|%d|%d", n, off))
+		}
+	}
+}
+
+// lastBytesWithEOF: a connection may hand over its last bytes and io.EOF in one Read; complete
+// frames must still be delivered, and only then the end of the stream reported.
+func lastBytesWithEOF(r *mon.Run, rec *recorder) {
+	for run := 0; run < r.Pick(80, 800); run++ {
+		rng := r.Rand(fmt.Sprintf("eof-together|%d", run))
+		var stream []byte
+		var sent [][]byte
+		for k := 0; k < 1+rng.IntN(4); k++ {
+			p := make([]byte, []int{0, 1, 7, 64, 300, 5000}[rng.IntN(6)])
+			for i := range p {
+				p[i] = byte(0x41 + k + i)
+			}
+			f, _ := refEncode(p)
+			stream = append(stream, f...)
+			sent = append(sent, p)
+		}
+		seg := []int{1, 2, 3, 4, 5, 64, 1 << 20}[rng.IntN(7)]
+		c := &faultConn{data: stream, failAt: len(stream) + 1, seg: seg, eofTogether: true}
+		t := nbt.NewNBTTransportFromConn(c)
+		cs := map[string]any{"stream": mon.FullHex(stream), "segment": seg}
+		for i, want := range sent {
+			var got []byte
+			var err error
+			pan, pv, st := mon.Guard(func() { got, err = t.Receive() })
+			rec.Eval(1)
+			if pan {
+				rec.Violation(run, "Receive:panic", sprintf("panic %v at %s", pv, mon.TopLibFrame(st)), cs)
+				break
+			}
+			if err != nil || !bytes.Equal(got, want) {
+				rec.Violation(run, "Receive:error-on-complete-frame:eof-with-last-bytes", sprintf("message %d of %d (%d octets) is complete on the stream, whose last Read returns its bytes together with io.EOF: Receive returned (%d octets, %v)", i, len(sent), len(want), len(got), err), cs)
+				break
+			}
+		}
+		rec.Nontrivial(sprintf("eof-together|%d", run))
+	}
 }
 
 // factoryTransports: the transport handed out by transport.NewTransport for every spelling of
